@@ -15,7 +15,7 @@ and stores patch.diff, demo/, meta.json (+ our confirmation and detection record
 import os, sys, json, shutil, subprocess, re, time
 
 V = os.path.dirname(os.path.dirname(os.path.abspath(__file__)))
-CLONE = "/var/tmp/seedrun/repo"
+CLONE = os.environ.get("SEED_CLONE", "/var/tmp/seedrun/repo")
 
 
 def sh(cmd, cwd=None, timeout=7200, env=None):
